@@ -20,6 +20,7 @@ Min(a, c) == IF a < c THEN a ELSE c
 R(k, what) == [k |-> k, what |-> what]
 Check(e) ==
   IF e.panic # "" THEN R("V", "panic")
+  ELSE IF e.changed THEN R("V", "answer-depends-on-what-was-decoded-before")
   ELSE IF ~e.err /\ ~(e.len >= 1 /\ e.len <= 15 /\ e.len <= e.n) THEN R("V", "length-out-of-range")
   ELSE IF ~e.err /\ e.rel # 0 /\ ~(e.off >= 1 /\ e.off + e.rel <= e.len) THEN R("V", "pcrel-outside-instruction")
   ELSE IF Len(e.b) = 0 THEN R("ok", "empty")
